@@ -3,8 +3,9 @@
 
    All theorems quantify over every option list: any option types, any data lengths (bytes are N, so
    0..253 is included), duplicates, any order; and over every configuration and previous peer state.
-   Variant [repaired] is the behaviour with the three recorded defects fixed; the IPCP, IPv6CP, magic-number,
-   wire-format and reply theorems do not depend on the variant at all. *)
+   Variant [repaired] is what /repo HEAD implements for pkg/ppp and internal/pppoe (all recorded findings are
+   fixed there); [lns_found] is what internal/l2tp (LNS owner of the same IPCP object) still does.  The IPCP,
+   IPv6CP, magic-number, wire-format and reply theorems do not depend on the variant at all. *)
 From OV Require Import Common.Base C06.Model C06.Proofs.
 
 (* ---- IPCP ---------------------------------------------------------------------------------- *)
@@ -71,28 +72,210 @@ Theorem C06_ipcp_wire_ack :
 Proof. exact ipcp_wire_ack. Qed.
 Print Assumptions C06_ipcp_wire_ack.
 
+(* ---- which packet answers a Configure-Request (all three protocols) --------------------------- *)
+
+(* Configure-Reject if anything is rejected, else Configure-Nak if anything is Nak'd, else Configure-Ack *)
+Theorem C06_reply_priority :
+  forall id r,
+  (r_rej r <> [] -> reply id r = Scj id (r_rej r)) /\
+  (r_rej r = [] -> r_nak r <> [] -> reply id r = Scn id (r_nak r)) /\
+  (r_rej r = [] -> r_nak r = [] -> reply id r = Sca id (r_ack r)).
+Proof. exact reply_priority. Qed.
+Print Assumptions C06_reply_priority.
+
+(* FSM.Input(ConfReq, id, bytes) on an IPCP / LCP / IPv6CP instance, every state, every byte string: if the
+   bytes do not parse nothing at all happens; otherwise exactly one Configure-Ack/Nak/Reject is emitted in
+   the states Stopped, Req-Sent, Ack-Rcvd, Ack-Sent, Opened — namely [reply] of the handler's verdict — and
+   none in the other states. *)
+Theorem C06_ipcp_wire_packet :
+  forall c st p id wire acts st' p',
+  ipcp_input c st p id wire = (acts, st', p') ->
+  match parse_wire wire with
+  | Ok os => conf_packets acts = if replies st then [reply id (fst (ipcp_req c p os))] else []
+  | _ => acts = []
+  end.
+Proof. exact ipcp_wire_packet. Qed.
+Print Assumptions C06_ipcp_wire_packet.
+
+Theorem C06_lcp_wire_packet :
+  forall fl magic st p id wire acts st' p',
+  lcp_input fl magic st p id wire = (acts, st', p') ->
+  match parse_wire wire with
+  | Ok os => conf_packets acts = if replies st then [reply id (fst (lcp_req fl magic p os))] else []
+  | _ => acts = []
+  end.
+Proof. exact lcp_wire_packet. Qed.
+Print Assumptions C06_lcp_wire_packet.
+
+Theorem C06_ipv6cp_wire_packet :
+  forall local st p oracle id wire acts st' p',
+  ipv6cp_input local st p oracle id wire = (acts, st', p') ->
+  match parse_wire wire with
+  | Ok os => conf_packets acts =
+             if replies st then [reply id (v6_res (ipv6cp_req local p oracle os))] else []
+  | _ => acts = []
+  end.
+Proof. exact ipv6cp_wire_packet. Qed.
+Print Assumptions C06_ipv6cp_wire_packet.
+
+(* IPCP, usable assigned address v, replying state.
+   Reject side: if the request contains an option that is not an implemented type with 4 data bytes, the
+   packet is a Configure-Reject listing exactly those options, in order. *)
+Theorem C06_ipcp_wire_rej :
+  forall c st p id wire acts st' p' os,
+  usable (ic_assigned c) = true ->
+  ipcp_input c st p id wire = (acts, st', p') -> parse_wire wire = Ok os -> replies st = true ->
+  (exists o, In o os /\ ipcp_rejectable o = true) ->
+  conf_packets acts = [Scj id (filter ipcp_rejectable os)].
+Proof. exact ipcp_wire_rej. Qed.
+Print Assumptions C06_ipcp_wire_rej.
+
+(* Nak side: if nothing has to be rejected and some IP-Address option differs from v, the packet is a
+   Configure-Nak that contains (3, v) and whose IP-Address options all carry v. *)
+Theorem C06_ipcp_wire_nak :
+  forall c st p id wire acts st' p' os v,
+  usable (ic_assigned c) = true -> to4o (ic_assigned c) = Some v ->
+  ipcp_input c st p id wire = (acts, st', p') -> parse_wire wire = Ok os -> replies st = true ->
+  (forall o, In o os -> ipcp_rejectable o = false) ->
+  (exists o, In o os /\ o_type o = 3%N /\ o_data o <> v) ->
+  exists nk, conf_packets acts = [Scn id nk] /\ In (mkopt 3 v) nk /\
+             (forall n, In n nk -> o_type n = 3%N -> o_data n = v).
+Proof. exact ipcp_wire_nak. Qed.
+Print Assumptions C06_ipcp_wire_nak.
+
+(* In no state and for no byte string is a request containing a wrong address proposal (any length)
+   answered with a Configure-Ack. *)
+Theorem C06_ipcp_wire_wrong_not_acked :
+  forall c st p id wire acts st' p' os v,
+  usable (ic_assigned c) = true -> to4o (ic_assigned c) = Some v ->
+  ipcp_input c st p id wire = (acts, st', p') -> parse_wire wire = Ok os ->
+  (exists o, In o os /\ o_type o = 3%N /\ o_data o <> v) ->
+  forall id' os', ~ In (Sca id' os') acts.
+Proof. exact ipcp_wire_wrong_not_acked. Qed.
+Print Assumptions C06_ipcp_wire_wrong_not_acked.
+
+(* The two-step case.  A request with a wrong 4-byte address proposal AND an option that must be rejected
+   is answered with the Configure-Reject (RFC 1661 5.4: Reject takes precedence; the Reject does not mention
+   the address).  The next request, the same list without the rejected options — which is what RFC 1661
+   obliges the peer to send — is answered, in any replying state and whatever happened in between to the
+   peer state, with the Configure-Nak carrying (3, v).
+   Relation to the property text "answers any other proposal with a Nak carrying the assigned address": read
+   literally (the FIRST answer is that Nak) it does not hold for such mixed requests, on HEAD or in any
+   RFC-conformant implementation; what holds is: the proposal is never acknowledged
+   (C06_ipcp_wire_wrong_not_acked) and the Nak with the assigned address is the answer as soon as the request
+   contains nothing to reject.  We read the property in that sense and do not record a finding. *)
+Theorem C06_ipcp_two_step :
+  forall c v os,
+  usable (ic_assigned c) = true -> to4o (ic_assigned c) = Some v ->
+  (exists o, In o os /\ o_type o = 3%N /\ length (o_data o) = 4%nat /\ o_data o <> v) ->
+  (exists o, In o os /\ ipcp_rejectable o = true) ->
+  forall st1 p1 id1 w1 acts1 st1' p1' st2 p2 id2 w2 acts2 st2' p2',
+  parse_wire w1 = Ok os -> replies st1 = true -> ipcp_input c st1 p1 id1 w1 = (acts1, st1', p1') ->
+  parse_wire w2 = Ok (filter (fun o => negb (ipcp_rejectable o)) os) -> replies st2 = true ->
+  ipcp_input c st2 p2 id2 w2 = (acts2, st2', p2') ->
+  conf_packets acts1 = [Scj id1 (filter ipcp_rejectable os)] /\
+  exists nk, conf_packets acts2 = [Scn id2 nk] /\ In (mkopt 3 v) nk /\
+             (forall n, In n nk -> o_type n = 3%N -> o_data n = v).
+Proof. exact ipcp_two_step. Qed.
+Print Assumptions C06_ipcp_two_step.
+
+(* LCP (HEAD): a Configure-Ack echoes the parsed request with its identifier; every option in it is MRU,
+   Authentication-Protocol or Magic-Number; no Magic-Number in it equals a non-zero local magic; every
+   Authentication-Protocol in it is PAP or exactly CHAP+MD5. *)
+Theorem C06_lcp_wire_ack :
+  forall magic st p id wire acts st' p' id' os,
+  lcp_input repaired magic st p id wire = (acts, st', p') -> In (Sca id' os) acts ->
+  parse_wire wire = Ok os /\ id' = id /\
+  (forall o, In o os -> o_type o = 1%N \/ o_type o = 3%N \/ o_type o = 5%N) /\
+  (magic <> 0%N -> forall o, In o os -> o_type o = 5%N -> num32 (o_data o) <> magic) /\
+  (forall o, In o os -> o_type o = 3%N ->
+     num16 (o_data o) = proto_pap \/
+     (num16 (o_data o) = proto_chap /\ exists a b, o_data o = [a; b; chap_md5])).
+Proof. exact lcp_wire_ack. Qed.
+Print Assumptions C06_lcp_wire_ack.
+
+(* own magic looped back (any variant): never a Configure-Ack; a Configure-Nak carrying it when nothing has
+   to be rejected, else the Configure-Reject of those options *)
+Theorem C06_lcp_wire_loopback :
+  forall fl magic st p id wire acts st' p' os o,
+  magic <> 0%N ->
+  lcp_input fl magic st p id wire = (acts, st', p') -> parse_wire wire = Ok os -> replies st = true ->
+  In o os -> o_type o = 5%N -> length (o_data o) = 4%nat -> num32 (o_data o) = magic ->
+  (forall id' os', ~ In (Sca id' os') acts) /\
+  (r_rej (fst (lcp_req fl magic p os)) = [] ->
+   exists nk, conf_packets acts = [Scn id nk] /\ In o nk) /\
+  (r_rej (fst (lcp_req fl magic p os)) <> [] ->
+   conf_packets acts = [Scj id (r_rej (fst (lcp_req fl magic p os)))]).
+Proof. exact lcp_wire_loopback. Qed.
+Print Assumptions C06_lcp_wire_loopback.
+
+(* IPv6CP: a Configure-Ack echoes the parsed request and every option in it is an 8-byte Interface-Identifier
+   that is neither zero nor the local one; a request with any other option never gets a Configure-Ack. *)
+Theorem C06_ipv6cp_wire_ack :
+  forall local st p oracle id wire acts st' p' id' os,
+  ipv6cp_input local st p oracle id wire = (acts, st', p') -> In (Sca id' os) acts ->
+  parse_wire wire = Ok os /\ id' = id /\
+  forall o, In o os ->
+    In o os /\ o_type o = 1%N /\ length (o_data o) = 8%nat /\ all_zero (o_data o) = false /\ o_data o <> local.
+Proof. exact ipv6cp_wire_ack. Qed.
+Print Assumptions C06_ipv6cp_wire_ack.
+
+Theorem C06_ipv6cp_wire_bad :
+  forall local st p oracle id wire acts st' p' os o,
+  ipv6cp_input local st p oracle id wire = (acts, st', p') -> parse_wire wire = Ok os ->
+  In o os ->
+  (o_type o <> 1%N \/ length (o_data o) <> 8%nat \/ all_zero (o_data o) = true \/ o_data o = local) ->
+  forall id' os', ~ In (Sca id' os') acts.
+Proof. exact ipv6cp_wire_bad. Qed.
+Print Assumptions C06_ipv6cp_wire_bad.
+
 (* ---- the session adopts only the assigned address ------------------------------------------- *)
 
-(* Repaired behaviour (startNCP as of /repo 24c9504: no constant fall-back address).  Either IPCP was never
-   started — the session then has no IPv4 address and IPCP is not open — or the following holds.
-   For every AAA answer (none, usable, 0.0.0.0, an IPv6 literal, anything) and every
-   history of subscriber Configure-Requests (arbitrary bytes), Configure-Acks, Configure-Naks and
-   Configure-Rejects for our own request (arbitrary bytes) and re-authentications with a different AAA
-   answer on the same session (startNCP run again): the assigned address is
-   usable, the session's IPv4 address equals it after every event — in particular whenever IPCP comes up —
-   and the remembered negotiated peer address is either nil or the assigned one (never a stale one). *)
+(* Event alphabet of a session history (sev): the subscriber's Configure-Request (any identifier, any bytes),
+   its Configure-Ack / Nak / Reject for our own request carrying our last identifier (verbatim or with
+   arbitrary bytes), and a re-authentication (new AAA answer, registry answers as oracle, startNCP again).
+   Not in the alphabet: Terminate, Code-Reject, timeouts, Down/Close, answers with a stale identifier
+   (the FSM drops those before the handler runs: fsm.go rcaEvent/rcnEvent first line).
+
+   Repaired behaviour, both owners (PPPoE, LNS), every AAA answer (none, usable, 0.0.0.0, IPv6 literal, ...),
+   every outcome of pool allocation / address reservation (oracle) at start and at every re-authentication,
+   every history.  Either IPCP was never started — the session then has no IPv4 address and IPCP is not
+   open — or: the assigned address is usable; the session address is nil or the assigned address (nil only
+   after a reservation conflict on re-authentication, see the next theorem); and the remembered negotiated
+   peer address is nil or the assigned one, never a stale one. *)
 Theorem C06_adopted_is_assigned :
-  forall aaa es,
-  let s := sess_run repaired (sess_start repaired aaa) es in
+  forall ow aaa orc es,
+  let s := sess_run repaired (sess_start repaired ow aaa orc) es in
   (s_fsm s = 0%N /\ s_addr s = None /\ s_open s = false) \/
   (usable (ic_assigned (s_cfg s)) = true /\
-   to4o (s_addr s) = ic_assigned (s_cfg s) /\
+   (s_addr s = None \/ to4o (s_addr s) = ic_assigned (s_cfg s)) /\
    (pp_addr (s_peer s) = None \/ pp_addr (s_peer s) = ic_assigned (s_cfg s))).
 Proof. exact adopted_is_assigned. Qed.
 Print Assumptions C06_adopted_is_assigned.
 
+(* If no re-authentication runs into a reservation conflict (ReserveIP answers "held by another session"),
+   the session address of a started session IS the assigned address after every event. *)
+Theorem C06_adopted_is_assigned_no_conflict :
+  forall ow aaa orc es,
+  forallb no_conflict es = true ->
+  let s := sess_run repaired (sess_start repaired ow aaa orc) es in
+  (s_fsm s = 0%N /\ s_addr s = None /\ s_open s = false) \/
+  (usable (ic_assigned (s_cfg s)) = true /\ to4o (s_addr s) = ic_assigned (s_cfg s)).
+Proof. exact adopted_is_assigned_no_conflict. Qed.
+Print Assumptions C06_adopted_is_assigned_no_conflict.
+
+(* Observation (HEAD, PPPoE): a re-authentication whose new address is held by another session clears the
+   session address but leaves IPCP open with the old assignment — the session is then "open" without an
+   IPv4 address until IPCP is renegotiated.  No foreign address is acknowledged or adopted (theorem above). *)
+Example C06_reauth_conflict_observation :
+  let s := sess_run repaired (sess_start repaired PPPoE (Some (v4prefix ++ [10;0;0;5])%N) (mkorc None true))
+             [EvReq 1 [3;6;10;0;0;5]%N; EvAck; EvReauth (Some (v4prefix ++ [10;0;0;9])%N) (mkorc None false)] in
+  s_open s = true /\ s_addr s = None /\ ic_assigned (s_cfg s) = Some [10;0;0;5]%N.
+Proof. vm_compute. repeat split. Qed.
+Print Assumptions C06_reauth_conflict_observation.
+
 (* while IPCP has not been started the session is silent and stays closed whatever the subscriber sends
-   (any variant) *)
+   (any variant, either owner) *)
 Theorem C06_idle_silent :
   forall fl s e, is_reauth e = false ->
   s_fsm s = 0%N /\ s_addr s = None /\ s_open s = false ->
@@ -109,61 +292,77 @@ Theorem C06_assigned_immutable :
 Proof. exact sess_run_assigned. Qed.
 Print Assumptions C06_assigned_immutable.
 
-(* startNCP starts IPCP (Req-Sent, our Configure-Request out) exactly when the session owns a usable IPv4
-   address, with exactly that address assigned; a session without a usable address never starts IPCP: the
-   FSM stays in Initial, the session address is nil, nothing is assigned (and by C06_idle_silent nothing is
-   ever sent or adopted).  The "nothing to assign: acknowledge any non-zero proposal" branch of
-   ProcessConfReq can therefore never produce a packet. *)
+(* startNCP (repaired, either owner).  Let a be the session address after the registry step (no address:
+   the pool allocation result; PPPoE with an address: that address unless its reservation conflicts).
+   IPCP is started (Req-Sent, our Configure-Request out) exactly when a is usable, with exactly a assigned
+   and a as the session address; otherwise IPCP is never started: FSM Initial, session address nil,
+   nothing assigned (and by C06_idle_silent nothing is ever sent or adopted).  The "nothing to assign:
+   acknowledge any non-zero proposal" branch of ProcessConfReq can therefore never produce a packet. *)
 Theorem C06_startncp_assigned :
-  forall aaa,
-  let s := sess_start repaired aaa in
-  (usable (extract_ip repaired aaa) = true ->
-     s_fsm s = 6%N /\ usable (ic_assigned (s_cfg s)) = true /\
-     ic_assigned (s_cfg s) = to4o (extract_ip repaired aaa) /\ s_addr s = extract_ip repaired aaa) /\
-  (usable (extract_ip repaired aaa) = false ->
+  forall ow aaa orc,
+  let s := sess_start repaired ow aaa orc in
+  let a := addr_after_registry ow (extract_ip repaired aaa) orc in
+  (usable a = true ->
+     s_fsm s = 6%N /\ usable (ic_assigned (s_cfg s)) = true /\ ic_assigned (s_cfg s) = to4o a /\ s_addr s = a) /\
+  (usable a = false ->
      s_fsm s = 0%N /\ s_addr s = None /\ s_open s = false /\ ic_assigned (s_cfg s) = None).
 Proof. exact startncp_assigned. Qed.
 Print Assumptions C06_startncp_assigned.
 
-(* What the code does today (1): a Configure-Request without an IP-Address option is acknowledged, IPCP
-   comes up and onIPCPUp overwrites the session address with the nil peer address. *)
+(* Before 95b0af2 (PPPoE) / still today in the LNS owner (1): a Configure-Request without an IP-Address
+   option is acknowledged, IPCP comes up and onIPCPUp overwrites the session address with the nil peer address. *)
 Theorem C06_adopted_is_assigned_refuted :
-  exists aaa es,
-  let fl := mkflags false true false in
-  let s := sess_run fl (sess_start fl aaa) es in
+  exists ow aaa orc es,
+  let fl := mkflags false true false false false in
+  let s := sess_run fl (sess_start fl ow aaa orc) es in
   s_open s = true /\ s_addr s = None /\ usable (ic_assigned (s_cfg s)) = true.
-Proof. exists (Some (v4prefix ++ [10;0;0;5])%N), [EvReq 1 []; EvAck]. vm_compute. repeat split. Qed.
+Proof.
+  exists LNS, (Some (v4prefix ++ [10;0;0;5])%N), (mkorc None true), [EvReq 1 []; EvAck].
+  vm_compute. repeat split.
+Qed.
 Print Assumptions C06_adopted_is_assigned_refuted.
 
-(* What the code does today (1b): after a re-authentication that changes the assignment from A to B the
-   remembered peer address A survives in the IPCP object; a request without an address option then brings
-   IPCP up and the session adopts the stale A. *)
+(* Before 95b0af2 (1b): after a re-authentication that changes the assignment from A to B the remembered
+   peer address A survives in the IPCP object; a request without an address option then brings IPCP up and
+   the session adopts the stale A. *)
 Theorem C06_adopted_stale_refuted :
   exists aaa es,
-  let fl := mkflags false true false in
-  let s := sess_run fl (sess_start fl aaa) es in
+  let fl := mkflags false true false true false in
+  let s := sess_run fl (sess_start fl PPPoE aaa (mkorc None true)) es in
   s_open s = true /\ s_addr s = Some [10;0;0;5]%N /\ ic_assigned (s_cfg s) = Some [10;0;0;9]%N.
 Proof.
   exists (Some (v4prefix ++ [10;0;0;5])%N),
-         [EvReq 1 [3;6;10;0;0;5]%N; EvAck; EvReauth (Some (v4prefix ++ [10;0;0;9])%N); EvReq 2 []; EvAck].
+         [EvReq 1 [3;6;10;0;0;5]%N; EvAck; EvReauth (Some (v4prefix ++ [10;0;0;9])%N) (mkorc None true);
+          EvReq 2 []; EvAck].
   vm_compute. repeat split.
 Qed.
 Print Assumptions C06_adopted_stale_refuted.
 
-(* Before fix bc32486 (2): an unusable AAA address (0.0.0.0, IPv6 literal) was kept by
-   extractIPFromAttributes.  With startNCP as of 24c9504 this no longer starts IPCP unassigned, but on a
-   re-authentication it still wipes the address of a session whose IPCP is open with A assigned. *)
+(* Before bc32486 (2): an unusable AAA address (0.0.0.0, IPv6 literal) was kept by extractIPFromAttributes;
+   on a re-authentication it wipes the address of a session whose IPCP is open with A assigned. *)
 Theorem C06_aaa_unusable_refuted :
   exists aaa es,
-  let fl := mkflags false false true in
-  let s := sess_run fl (sess_start fl aaa) es in
+  let fl := mkflags false false true false false in
+  let s := sess_run fl (sess_start fl PPPoE aaa (mkorc None true)) es in
   s_open s = true /\ s_addr s = None /\ ic_assigned (s_cfg s) = Some [10;0;0;5]%N.
 Proof.
   exists (Some (v4prefix ++ [10;0;0;5])%N),
-         [EvReq 1 [3;6;10;0;0;5]%N; EvAck; EvReauth (Some (v4prefix ++ [0;0;0;0])%N)].
+         [EvReq 1 [3;6;10;0;0;5]%N; EvAck; EvReauth (Some (v4prefix ++ [0;0;0;0])%N) (mkorc None true)].
   vm_compute. repeat split.
 Qed.
 Print Assumptions C06_aaa_unusable_refuted.
+
+(* The LNS owner as found at HEAD (internal/l2tp/lns_lifecycle.go): with no address to assign (no pool, no
+   AAA address) IPCP is started anyway and runs "unassigned": the subscriber's proposal 6.6.6.6 is
+   acknowledged and adopted; and with AAA 0.0.0.0 likewise. *)
+Theorem C06_lns_unassigned_refuted :
+  exists aaa orc es,
+  let s := sess_run lns_found (sess_start lns_found LNS aaa orc) es in
+  usable (ic_assigned (s_cfg s)) = false /\ s_open s = true /\ s_addr s = Some [6;6;6;6]%N.
+Proof.
+  exists None, (mkorc None true), [EvReq 1 [3;6;6;6;6;6]%N; EvAck]. vm_compute. repeat split.
+Qed.
+Print Assumptions C06_lns_unassigned_refuted.
 
 (* ---- LCP ------------------------------------------------------------------------------------ *)
 
@@ -368,9 +567,9 @@ Proof. vm_compute. repeat split. Qed.
 Print Assumptions C06_ipcp_nonvacuous.
 
 Example C06_session_nonvacuous :
-  let s := sess_run repaired (sess_start repaired (Some (v4prefix ++ [10;0;0;5])%N))
+  let s := sess_run repaired (sess_start repaired PPPoE (Some (v4prefix ++ [10;0;0;5])%N) (mkorc None true))
              [EvReq 1 [3;6;0;0;0;0]; EvReq 2 []; EvAck; EvNak [3;6;6;6;6;6;129;6;1;1;1;1]; EvRej [129;6;1;1;1;1];
-              EvReq 3 [3;6;10;0;0;5]; EvReauth (Some (v4prefix ++ [10;0;0;9])); EvReq 4 [3;6;10;0;0;5];
+              EvReq 3 [3;6;10;0;0;5]; EvReauth (Some (v4prefix ++ [10;0;0;9])) (mkorc None true); EvReq 4 [3;6;10;0;0;5];
               EvReq 5 [3;6;10;0;0;9]; EvAckW [3;6;6;6;6;6]]%N in
   s_open s = true /\ s_fsm s = 9%N /\ to4o (s_addr s) = Some [10;0;0;9]%N /\
   pp_addr (s_peer s) = Some [10;0;0;9]%N.
